@@ -209,7 +209,8 @@ def _build_spec(case, PROP, r):
                 sp['ops'].append(gen.nf_data_op(first + j, b'payload of copy %d' % j))
         return sp
     if k == 'header-origin':
-        how = r.choice(['origin-reference-reassigned', 'header-reference-reassigned', 'header-shared'])
+        how = r.choice(['origin-reference-reassigned', 'header-reference-reassigned', 'header-shared', 'header-reference-chosen-first',
+                        'header-reference-chosen-first'])
         case['how'] = how
         two = how == 'header-shared'
         sp = gen.base_spec(r.choice([512, 8192]), lfs=([{'fh_id': 'SHARED-HDR', 'as_object': r.random() < 0.5},
@@ -218,6 +219,20 @@ def _build_spec(case, PROP, r):
         for lf in range(2 if two else 1):
             sn = {'set_name': f'S{lf}'} if two else {}
             ref = r.choice([1, 5, 200, 20000]) + lf
+            if how == 'header-reference-chosen-first':
+                # the user points the header at the SECOND origin before any origin exists (or after both do)
+                late = r.random() < 0.3
+                chosen = ref + 40
+                if not late:
+                    sp['ops'].append({'op': 'set_header', 'lf': lf, 'field': 'origin_reference', 'value': chosen})
+                sp['ops'].append(dict(gen.origin_op('ORIGIN-DEFINING', fsn=3, **({'origin_reference': ref} if r.random() < 0.5 else {})), lf=lf))
+                sp['ops'].append(dict(gen.origin_op('ORIGIN-OTHER', fsn=4, origin_reference=chosen), lf=lf))
+                if late:
+                    sp['ops'].append({'op': 'set_header', 'lf': lf, 'field': 'origin_reference', 'value': chosen})
+                ci = len(sp['ops'])
+                sp['ops'].append(gen.channel_op('CH', '<f8', (3,), fill={'kind': 'pos', 'tag': 1}, lf=lf))
+                sp['ops'].append(gen.frame_op('FR', [ci], lf=lf))
+                continue
             oi = len(sp['ops'])
             sp['ops'].append(dict(gen.origin_op(f'ORIGIN-{lf}', fsn=3, **({'origin_reference': ref} if two or r.random() < 0.5 else {})), lf=lf, **sn))
             if how == 'origin-reference-reassigned':
